@@ -474,6 +474,9 @@ func (m *MTable) applyInsert(s *Stmt) Outcome {
 			old := work.Rows[ci]
 			nr := append(MRow(nil), old...)
 			for _, a := range s.Set {
+				if a.E.Kind == "default" && work.Def.Cols[a.Col].GenFrom >= 0 {
+					continue // generated column = DEFAULT: recomputed from the final base values below
+				}
 				v, e := evalExpr(a.E, old, r, work.Def)
 				if e != "" {
 					return Outcome{Err: e}
@@ -611,6 +614,9 @@ func (m *MTable) updateInOrder(s *Stmt, idx []int) (*MTable, Outcome) {
 		old := work.Rows[i]
 		nr := append(MRow(nil), old...)
 		for _, a := range s.Set {
+			if a.E.Kind == "default" && work.Def.Cols[a.Col].GenFrom >= 0 {
+				continue // generated column = DEFAULT: recomputed from the final base values below
+			}
 			v, e := evalExpr(a.E, old, nil, work.Def)
 			if e != "" {
 				return m, Outcome{Err: e}
@@ -671,6 +677,17 @@ func (m *MTable) applyUpdate(s *Stmt) Outcome {
 			}
 		}
 	}
+	if o1.Err != "" && o2.Err != "" && len(idx) > 1 {
+		// the statement fails whichever end it starts from; an engine that visits the
+		// rows in yet another order (a keyless table has none) may meet another row's
+		// failure first: any failure a selected row produces when it is processed
+		// first is an acceptable kind
+		for _, i := range idx {
+			if _, oi := m.updateInOrder(s, []int{i}); oi.Err != "" && oi.Err != o1.Err {
+				o1.ErrAlt = append(o1.ErrAlt, oi.Err)
+			}
+		}
+	}
 	if o1.Err == "" {
 		m.Rows = w1.Rows
 	}
@@ -686,6 +703,9 @@ func (m *MTable) updateAtOnce(s *Stmt, idx []int) (*MTable, Outcome) {
 		old := m.Rows[i]
 		nr := append(MRow(nil), old...)
 		for _, a := range s.Set {
+			if a.E.Kind == "default" && work.Def.Cols[a.Col].GenFrom >= 0 {
+				continue // generated column = DEFAULT: recomputed from the final base values below
+			}
 			v, e := evalExpr(a.E, old, nil, work.Def)
 			if e != "" {
 				return m, Outcome{Err: e}
